@@ -53,14 +53,21 @@ class FakeTube:
         self.pressure_bc = FakePressure() if with_p else None
 
 
+class Runaway(BaseException):
+    """the loop made far more attempts than any admissible schedule has (not a RuntimeError, so the loop cannot swallow it)"""
+
+
 def run_case(n, forced, ndim, failing, with_T=True, with_p=True, dtop=0.5):
     failing = set(failing)
     trace = []
     counter = [0]
+    cap = 8 * 2 ** n + 64
 
     def stub(which):
         def f(state_n, t_n, p_n, state_np1, t_np1, p_np1, d, opts):
             k = counter[0]
+            if k >= cap:
+                raise Runaway()
             counter[0] += 1
             state_np1.tag = k + 1
             rec = {
@@ -92,6 +99,9 @@ def run_case(n, forced, ndim, failing, with_T=True, with_p=True, dtop=0.5):
         out = {"outcome": "return", "final": int(res.tag), "final_converged": bool(res.converged)}
     except RuntimeError as e:
         out = {"outcome": "raise", "msg": str(e)[:80]}
+    except Runaway:
+        out = {"outcome": "runaway", "msg": "more than %d attempts" % cap}
+        trace = trace[:64]
     except Exception as e:  # anything else is reported, not hidden
         out = {"outcome": "error", "msg": repr(e)[:200]}
     out["trace"] = trace
@@ -110,10 +120,17 @@ def enumerate_tree(n, forced, ndim, limit):
     decision tree: a pattern is extended only at attempts that are reached)."""
     results = []
     stack = [[]]
+    attempts = 0
+    # the admissible decision tree of max_divide = n has fewer than 4^(n+1) attempts in all; a loop that does
+    # not stop where it should makes the tree explode, so the walk is cut there (and reported incomplete)
+    budget = 40 * 4 ** (n + 1) + 10000
     while stack and len(results) < limit:
         failing = stack.pop()
         r = run_case(n, forced, ndim, failing)
         results.append(r)
+        attempts += len(r["trace"])
+        if r["outcome"] == "runaway" or attempts > budget:
+            return results, False
         m = len(r["trace"])
         lo = (max(failing) + 1) if failing else 0
         for j in range(lo, m):
